@@ -90,6 +90,7 @@ type world struct {
 	memAfter bool
 	handler  func(u *url.URL) int
 	lb       *hookLB
+	sticky   bool // session affinity is on and every request carries the cookie of a current member
 }
 
 // hookLB is the inner balancer with a one-shot hook around its own UpsertServer/RemoveServer:
@@ -284,7 +285,11 @@ func (w *world) request() (changed bool) {
 		allReady = allReady && s.m.ready
 	}
 	rec := httptest.NewRecorder()
-	w.rb.ServeHTTP(rec, httptest.NewRequest("GET", "http://front/", nil))
+	req := httptest.NewRequest("GET", "http://front/", nil)
+	if w.sticky && len(w.servers) > 0 { // an established session: the weights are reviewed all the same
+		req.AddCookie(&http.Cookie{Name: "sid", Value: w.servers[0].url.String()})
+	}
+	w.rb.ServeHTTP(rec, req)
 	after := w.weights()
 	w.checkRange(after, "after a request")
 	for i := range before {
@@ -350,7 +355,7 @@ func step(ms int64) time.Duration {
 	return time.Duration(ms)*time.Millisecond + time.Microsecond
 }
 
-var names = []string{"http://s0", "http://s1", "http://s2", "http://s3", "http://s4"}
+var names = []string{"http://s0", "http://s1", "http://s2", "http://s3", "http://s4", "http://S0", "http://s1/"} // the last two are servers of their own (host names and paths are compared as written)
 var confWeights = []int{1, 1, 2, 2, 3, 4, 5, 6, 7, 8, 10, 12, 100, 1000, 4096, 5000}
 var ratingVals = []float64{0, 0.01, 0.1, 0.3, 0.5, 0.9, 1, 1.0 / 3, 1.0 / 7, 2.0 / 3, 0.123456789, 1e-7}
 
@@ -378,6 +383,10 @@ func newWorld(t *rapid.T, scripted bool) *world {
 			}
 			return w.pending, nil
 		}))
+		if rapid.IntRange(0, 3).Draw(t, "stickyTraffic") == 0 {
+			w.sticky = true
+			opts = append(opts, roundrobin.RebalancerStickySession(roundrobin.NewStickySession("sid")))
+		}
 	}
 	w.lb = &hookLB{RoundRobin: rr}
 	rb, err := roundrobin.NewRebalancer(w.lb, opts...)
